@@ -93,3 +93,34 @@ pub fn parse_addr(s: &str) -> Option<Address> {
         _ => None,
     }
 }
+
+/// Destination buffers for the encoders under test.  `FramedWrite` hands an encoder its accumulating write buffer:
+/// earlier frames still in it and whatever capacity happens to be left (8 KiB initially), so an encoder must neither
+/// rely on spare capacity it has not reserved nor touch bytes already there.  Two of three calls get a buffer that
+/// already holds bytes and has 0..=47 spare bytes; the result is what the encoder appended.
+static DST_TURN: std::sync::atomic::AtomicUsize = std::sync::atomic::AtomicUsize::new(0);
+
+pub fn dst_stream() -> (bytes::BytesMut, usize) {
+    let t = DST_TURN.fetch_add(1, std::sync::atomic::Ordering::Relaxed);
+    if t % 3 == 0 {
+        return (bytes::BytesMut::new(), 0);
+    }
+    let spare = (t / 3) % 48;
+    let mut b = bytes::BytesMut::with_capacity(8192);
+    let p = b.capacity() - spare;
+    b.resize(p, 0xEE);
+    (b, p)
+}
+
+/// `UdpFramed` clears its write buffer before each datagram but keeps its capacity: empty, with 0..=47 bytes of capacity
+pub fn dst_dgram() -> bytes::BytesMut {
+    let t = DST_TURN.fetch_add(1, std::sync::atomic::Ordering::Relaxed);
+    if t % 3 == 0 { bytes::BytesMut::new() } else { bytes::BytesMut::with_capacity((t / 3) % 48) }
+}
+
+pub fn dst_take(b: bytes::BytesMut, p: usize) -> anyhow::Result<Vec<u8>> {
+    if b.len() < p || b[..p].iter().any(|x| *x != 0xEE) {
+        anyhow::bail!("encoder touched bytes that were already in the write buffer");
+    }
+    Ok(b[p..].to_vec())
+}
